@@ -198,6 +198,19 @@ CLAIMED = {
              "harness. Known finding F26: stack exhaustion on bracket nesting >= 2000 (no recursion limit).",
         technique="Lean 4 proof by reflection (checked table + generic soundness, all token lists) + node-sequence correspondence + crash-classifying fuzz",
         design="§4 C15"),
+    "C16": dict(
+        text="A Lean reference parser (tree-building recursive descent mirroring parser.rs) and token-level printer; theorems "
+             "`parse_print_*`: printing a canonical tree and parsing the tokens gives the tree back, for every tree of the covered "
+             "grammar (types: all; expressions: see DESIGN). Tie, four ways: for syntax-directed generated modules covering every "
+             "production (random literal spellings, shorthand, trailing commas, layouts, comments) and every corpus file the first "
+             "generation accepts, the tree decoded from the second-generation XML dump (balanced, MALFORMED-free), the "
+             "first-generation AST, the Lean parser's tree of the REAL token stream and the generator's own tree must be "
+             "identical canonical S-expressions. Partial: the flat node layout itself (5-node context window) is tied only "
+             "through the XML reader and the node-sequence comparison of C15, not by a Lean encode/decode theorem.",
+        note="Trusted: Lean kernel, checks/xmltree.py (XML -> tree, string-literal decoding), harness AST serialiser, generator. "
+             "Normalisations stated in DESIGN: the first generation folds `-literal`, treats `return:` as a label, keeps `foo!` names.",
+        technique="Lean 4 proof (parser/printer round trip) + four-way tree correspondence on generated and corpus modules",
+        design="§4 C16"),
     "C17": dict(
         text="Lean model of the flat node array and of build_header_nodes (skip private zones, stop at the endless zone, "
              "rebase references by the number of skipped nodes, clear the pub flag) with a refinement theorem: for every module "
@@ -236,6 +249,18 @@ CLAIMED = {
              "generator's own thread RNG (not seedable without a hook): the replay of a failure is the output text itself.",
         technique="Lean 4 proof (per-piece, all payloads) + certificate-checked correspondence on real fuzzer outputs",
         design="§4 C19"),
+    "C20": dict(
+        text="Lean model of the rebuilder at token level (one printing arm per node kind) and of the parser; theorems "
+             "`parse_print_*`: parse (print t ++ rest) = (norm t, rest) for every canonical tree of the covered grammar, where norm "
+             "only re-spells literals; hence the reparsed tree equals the original up to literal spelling and a second print is "
+             "identical. Tie: for generated modules without builtin calls and every corpus file that parses error-free: "
+             "parse -> rebuild -> parse gives the same first-generation AST up to literal suffix/spelling, the second rebuild is "
+             "byte-identical, and the tokens of the rebuilt text equal the Lean printer's tokens for the Lean parser's tree of the "
+             "source's real token stream. Known findings: #-markers on structure types (F27/F28), declaration-less modules (F34).",
+        note="Trusted: Lean kernel, harness (rebuild + AST serialiser), marker stripping regexes, token comparison up to literal "
+             "spelling. Layout (indentation, line breaks) is not modelled: tokens only.",
+        technique="Lean 4 proof (printer/parser round trip) + rebuild/reparse correspondence with the real rebuilder and parsers",
+        design="§4 C20"),
 }
 
 NOT_APPLICABLE = {}
